@@ -3,8 +3,8 @@
 set -e
 cd "$(dirname "$0")"
 export CARGO_NET_OFFLINE=true
-python3 tools/gen_replies.py
-python3 tools/gen_help.py
+python3 tools/gen_replies.py || echo 'gen_replies: not translatable, committed Reply.lean kept'
+python3 tools/gen_help.py || echo 'gen_help: not translatable, committed Help.lean kept'
 (cd harness && cargo build 2>&1 | tail -3)
 # /repo's own binary without hooks (start-up validation, -g, DIE: checks C20 and C11)
 mkdir -p work && (cd /repo && cargo build --offline --target-dir /verif/work/bin-target 2>&1 | tail -2)
